@@ -3,7 +3,7 @@ from hypothesis import strategies as st
 
 from engines.runtime_worker import run_scenario
 from engines.scenarios import ALL, COROUTINE, events, switchinterval
-from vlib.core import Result, TestDef
+from vlib.core import HarnessError, Result, TestDef
 
 ID = "C11"
 LEVEL = "exploration"
@@ -103,8 +103,7 @@ def scenario(draw):
 def judge(sc, obs) -> Result:
     res = Result()
     if obs.get("worker_error"):
-        res.fail("worker-error", obs["worker_error"])
-        return res
+        raise HarnessError("scenario worker failed: " + str(obs["worker_error"]))
     if obs.get("hang") or not obs.get("episodes"):
         res.expensive = True
         res.fail("runtime-stuck", f"accept() did not end within {BOUND}s; threads {obs.get('hang_threads')}")
@@ -112,8 +111,7 @@ def judge(sc, obs) -> Result:
     out = obs["episodes"][0]
     for o in obs.get("ops", []):
         if o.get("error"):
-            res.fail("harness-driver-error", f"{o}")
-            return res
+            raise HarnessError(f"driver thread failed: {o}")
         if o.get("raised") and o.get("op") in ("adopt", "execute", "service"):
             sd = [x["t_call"] for x in obs["ops"] if x.get("op") == "shutdown"]
             if not sd or o.get("t_return", 1 << 62) < min(sd):
